@@ -262,6 +262,10 @@ def c14(res: Result):
                                 [{"op": "seeds", "n": 1}, {"op": "block", "maa": True, "optsrc": True, "exact": False, "size": -1}],
                                 [{"op": "cand", "n": 1, "greedy": True, "sim": True}, {"op": "block", "maa": True, "optsrc": True, "exact": False, "size": -1}, {"op": "cand", "n": 1}],
                                 [{"op": "cand", "n": 1, "greedy": False, "sim": False}, {"op": "scc", "maa": True}, {"op": "cand", "n": 1}],
+                                [{"op": "seeds", "n": 1}, {"op": "block", "maa": False, "optsrc": True, "exact": False, "size": -1}],
+                                [{"op": "sets", "n": 1}, {"op": "block", "maa": False, "optsrc": True, "exact": False, "size": -1}, {"op": "expseeds"}],
+                                [{"op": "cand", "n": 1, "greedy": True, "sim": True}, {"op": "block", "maa": False, "optsrc": False, "exact": False, "size": -1}],
+                                [{"op": "seeds", "n": 1}, {"op": "scc", "maa": False}, {"op": "expseeds"}],
                                 [{"op": "exp", "n": 1}, {"op": "seeds", "n": 2}, {"op": "seeds", "n": 3}, {"op": "block", "maa": False, "optsrc": True, "exact": False, "size": -1}]])
     tasks += feature_tasks("f", None, rng=rng, hist=(kinds, (3, 7), [], 2 if q else 8))
     # attractor data on unexpanded inner nodes, then a strategy that gives them successors without _expand_one_node
@@ -554,6 +558,15 @@ def c15(res: Result):
     pats += [[{"op": "bfs", "n": 1, "lvl": 1, "size": -1}, {"op": "bfs", "n": 2, "lvl": 0, "size": z}, {"op": "dfs", "n": 1, "stk": -1, "size": z}] for z in (4, 7)]
     tasks += feature_tasks("fl", pats, kinds=["deep", "modules", "shortcut2"], max_n=5)
     tasks += gadget_tasks("gl", pats, only=["xnor_2latch", "nscc_latch", "maa_inner_latch", "doc", "c20"])
+    # block expansion under a candidate limit that makes the clean-block search fail: a failed search must not be read as "clean"
+    # (nothing may be cached for the node), whatever is asked afterwards
+    tight = {"maxm": 100000, "candlim": 1, "rsthr": 1, "simbudget": 1000, "nfvsthr": 2000}
+    tightpats = [[{"op": "block", "maa": True, "optsrc": True, "exact": False, "size": -1}],
+                 [{"op": "block", "maa": True, "optsrc": True, "exact": True, "size": -1}],
+                 [{"op": "scc", "maa": True}]]
+    for t in gadget_tasks("gt", tightpats) + feature_tasks("ft", tightpats, kinds=["maa", "complex_attr", "multi_attr_in_min_trap"], max_n=5):
+        t["cfg"] = dict(tight)
+        tasks.append(t)
     # fault enumeration: every solver call of the last call fails once
     fpool = gen.network_pool(rng, N(q, 100, 2000), [3, 4, 4, 5])
     for i, tt in enumerate(fpool):
